@@ -583,6 +583,9 @@ func checkJSON(c jsonCase) string {
 // classification shared by the random and the enumerated parts
 func noteJSON(key string, mode string, flags []string, data []byte) func(r jsonRef, w want, known string) {
 	return func(r jsonRef, w want, known string) {
+		if known != "" { // the histogram describes what is judged
+			return
+		}
 		rec.Class("json/mode/" + mode)
 		for _, f := range flags {
 			rec.Class("json/flag/" + f)
